@@ -24,7 +24,10 @@ MANIFEST = {
             "same addresses and refuse the private spend key; extracted model vs implementation on seeds of every "
             "length 0..64, boundary scalars, boundary indices, payment ids and malformed addresses.",
     "note": "Keccak-256 and the ed25519 group are oracles (pycryptodome, own affine arithmetic); libsodium's error "
-            "cases (zero scalar, identity result, refused points) are modelled as observed.",
+            "cases (zero scalar, identity result, refused points) are modelled as observed. LINKED: this property's block-Base58 "
+            "model (Model/XmrB58.v) and the C10/C11 one (Model/Base58Xmr.v) are proved equal on every input, the C10/C11 "
+            "acceptance / canonicity / error-class theorems are transported to the address model's codec, and both extracted "
+            "models are run on the same inputs against the implementation and against each other.",
     "technique": "Coq proof + generated-constant obligations + extracted-model differential run + direct "
                  "recomputation from the published scheme",
     "ref": "7/C16",
